@@ -198,8 +198,15 @@ func c32Gen(rng *rand.Rand, ci int, multipart bool) c32Case {
 	if c.ListKind != "full" && rng.Intn(3) > 0 {
 		c.Broker = "ok" // isolate the part-list dimension
 	}
-	if rng.Intn(12) == 0 {
+	if rng.Intn(5) == 0 {
 		c.S3Fault = []string{"UploadPart", "CompleteMultipartUpload"}[rng.Intn(2)]
+		if c.S3Fault == "CompleteMultipartUpload" && rng.Intn(4) > 0 {
+			// the natural reaction to a 5xx on completion is to send the completion again
+			c.CompleteTwo = true
+			if rng.Intn(2) == 0 {
+				c.ListKind = "full" // so that the first completion actually reaches S3 and meets the fault
+			}
+		}
 	}
 	return c
 }
